@@ -120,6 +120,7 @@ func (s *Syncer) parallelSync(ctx context.Context, cs consensus.State, headers [
 	respChan := make(chan Resp, 128)
 
 	// process results in a separate goroutine
+	verifEvent("s.ingest.start", s.verifID(), 0)
 	resps := make([]*Resp, len(reqs))
 	finishCh := make(chan []*Resp, len(reqs))
 	// errCh receives exactly one value, from the goroutine below; the "no
@@ -141,11 +142,13 @@ func (s *Syncer) parallelSync(ctx context.Context, cs consensus.State, headers [
 				}
 				if err != nil {
 					s.ban(r.peer, fmt.Errorf("peer sent invalid blocks: %w", err))
+					verifEvent("s.ingest.done", s.verifID(), 1)
 					errCh <- err
 					return
 				}
 			}
 		}
+		verifEvent("s.ingest.done", s.verifID(), 0)
 		errCh <- nil
 	}()
 
